@@ -176,6 +176,8 @@ func (mc *XMCache) newXModelCacheIterator(bucket string, startKey []byte, endKey
 	// 意味着如果一个key在三个迭代器里面同时出现，优先级高的会覆盖优先级底的
 	multiIter := newMultiIterator(inputIter, backendIter)
 	multiIter = newMultiIterator(outputIter, multiIter)
+	// 本次执行删除的key在写缓存里是删除标注, 它盖掉底层的值之后自己也不能出现在扫描结果里
+	multiIter = newStripDelFlagIterator(multiIter)
 	return newContractIterator(multiIter), nil
 }
 
